@@ -24,6 +24,17 @@ CLAIMS.update({
         text="TLC checks Bounded (queue <= capacity), the overflow rule and SendNeverWaits (Send enabled in every receiver state) on the design; every transition is forced on the real code with the queue length observed under the lock after every send; level-A validation decides each Send/TrySend/SendRet event: truncation iff the queue was full, new item kept, one count per truncation, fallible/blocking sends enqueue or hand the item back, including a receiver that never runs or is stalled (kill / stalled-processor scenarios)."),
 })
 
+CLAIMS.update({
+    "C05": dict(cat="model_checking", ref="6/C05",
+        technique="TLA+ spec SpanGuard.tla (level B: the state/data/completion take() triple refines level A: the statement) explored exhaustively by TLC; every transition plus terminal probes replayed on real SpanGuards and #[emit::span] expansions",
+        text="TLC explores the whole (finite, cyclic) graph of SpanGuard operation sequences - New with both filter verdicts, Start, WithMdl/Name/Props, MapProps, WithCompletion, Complete, CompleteWith, Drop, DropWhilePanicking, under six clock scripts and five completion kinds - checking AtMostOnce, ExactlyOnceIffEnabledStarted, EnabledIsFilterVerdict, ReturnValueTruthful, ExtentIsStartToEnd, CarriesLatestData, PanicAddsErrAndLevel and refinement of the statement; every transition is printed with the level-A prediction and replayed on a type-erased real SpanGuard and on real #[emit::span] functions (sync/async, return, early return, ?, panic, ok_lvl/err_lvl/panic_lvl/guard), each non-terminal edge followed by every terminal operation; the F2 design mutation is re-checked on every run.",
+        note="erased guard stands for statically typed chains (methods are generic, never inspect P/F); macro forms are a fixed fixture set (span-on-block, err: mapper, setup: not exercised); extent is a don't-care when a clock reading is None; trusts TLC, std::thread::panicking, the harness projection"),
+    "C20": dict(cat="model_checking", ref="6/C20",
+        technique="TLA+ spec Slot.tla model-checked by TLC (all interleavings of 3 initialisers x 2-3 observers; three wrong designs rejected); OS-scheduled rounds on fresh AmbientSlots recorded with call start/end numbers and validated by TLC against SlotTrace.tla (linearizability-style trace validation)",
+        text="TLC checks AtMostOneWinner, ExactlyOneWinner, LosersNeverReceive, AllFiveTogether, InertBefore and Stable on every interleaving of the slot design (atomic TrySet / Read steps between call start and return); the real code is bound by trace validation: thousands of barrier-released rounds with racing initialisers (try_init_slot, init_slot under catch_unwind, AmbientSlot::init; all five components tagged) and observers (is_enabled, emit, span, flush, five component probes) on a fresh AmbientSlot per round, plus the global slot in child processes; TLC places the internal steps and rejects any round no linearization explains; a corrupted trace must be rejected on every run.",
+        note="real interleavings come from the OS scheduler (not enumerated): a defect with a window of a few instructions is found with high probability over the rounds, not with certainty; OnceLock set/get treated as linearizable; components are test doubles; exhaustive part holds within the stated bounds"),
+})
+
 NOT_YET = {}
 
 
